@@ -204,7 +204,8 @@ def make_circuit(ctx, r, variant):
 
         nx.relabel_nodes(c.graph, {n: "\\" + n + "[1]" for n in list(c.graph.nodes) if n.startswith("n") and r.random() < 0.4}, copy=False)
     if variant % 2 == 0:
-        gen.add_flops(r, c, r.randint(1, 2))
+        # (now and then a blackbox definition that was created without a name: the class allows it)
+        gen.add_flops(r, c, r.randint(1, 2), bbtype=(cg.BlackBox(None, ["clk", "d"], ["q"]) if variant % 8 == 6 else None))
     if variant % 8 == 5:
         for n in sorted(c.inputs()):                 # no primary inputs at all: constants drive everything
             c.graph.nodes[n]["type"] = r.choice(["0", "1"])
